@@ -268,9 +268,10 @@ seq_t dtw_distance(seq_t *s1, idx_t l1,
         ec = ec_next;
         // Deal with Psi-relaxation in last column
         if (settings->psi_1e != 0 && minj == l2 && l1 - 1 - i <= settings->psi_1e) {
-            assert(!(settings->window == 0 || settings->window == l2) || (i1 + 1)*length - 1 == curidx);
+            // last column of this row; do not rely on the index left behind by the
+            // inner loop, the last cell may have been skipped (max_step) or pruned
+            curidx = i1 * length + l2 - skip;
             if (dtw[curidx] < psi_shortest) {
-                // curidx is the last value
                 psi_shortest = dtw[curidx];
             }
         }
@@ -511,9 +512,10 @@ seq_t dtw_distance_ndim(seq_t *s1, idx_t l1,
         ec = ec_next;
         // Deal with Psi-relaxation in last column
         if (settings->psi_1e != 0 && minj == l2 && l1 - 1 - i <= settings->psi_1e) {
-            assert(!(settings->window == 0 || settings->window == l2) || (i1 + 1)*length - 1 == curidx);
+            // last column of this row; do not rely on the index left behind by the
+            // inner loop, the last cell may have been skipped (max_step) or pruned
+            curidx = i1 * length + l2 - skip;
             if (dtw[curidx] < psi_shortest) {
-                // curidx is the last value
                 psi_shortest = dtw[curidx];
             }
         }
@@ -742,9 +744,10 @@ seq_t dtw_distance_euclidean(seq_t *s1, idx_t l1,
         ec = ec_next;
         // Deal with Psi-relaxation in last column
         if (settings->psi_1e != 0 && minj == l2 && l1 - 1 - i <= settings->psi_1e) {
-            assert(!(settings->window == 0 || settings->window == l2) || (i1 + 1)*length - 1 == curidx);
+            // last column of this row; do not rely on the index left behind by the
+            // inner loop, the last cell may have been skipped (max_step) or pruned
+            curidx = i1 * length + l2 - skip;
             if (dtw[curidx] < psi_shortest) {
-                // curidx is the last value
                 psi_shortest = dtw[curidx];
             }
         }
@@ -982,9 +985,10 @@ seq_t dtw_distance_ndim_euclidean(seq_t *s1, idx_t l1,
         ec = ec_next;
         // Deal with Psi-relaxation in last column
         if (settings->psi_1e != 0 && minj == l2 && l1 - 1 - i <= settings->psi_1e) {
-            assert(!(settings->window == 0 || settings->window == l2) || (i1 + 1)*length - 1 == curidx);
+            // last column of this row; do not rely on the index left behind by the
+            // inner loop, the last cell may have been skipped (max_step) or pruned
+            curidx = i1 * length + l2 - skip;
             if (dtw[curidx] < psi_shortest) {
-                // curidx is the last value
                 psi_shortest = dtw[curidx];
             }
         }
